@@ -123,6 +123,9 @@ def gen_case(rng, adaptive):
         ts = [t0, t0 + 1.0]
     case = dict(adaptive=adaptive, dt=dt, ts=ts, y0=rng.uniform(-1, 1), kind=kind,
                 c=(rng.uniform(-1, 1), rng.uniform(-2, 2), rng.uniform(-1, 1)), fuel=200000)
+    if not adaptive:
+        # the fixed-step loop (and its model) has no dt_min: the real solver is nevertheless GIVEN one, sometimes larger than dt
+        case['dt_min'] = rng.choice([0.0, 1e-5, 2.0 * dt, 7.0 * dt])
     if adaptive:
         case['dt_min'] = rng.choice([1e-3, 1e-2, 1e-4, dt / 4])
         case['scale'] = rng.choice([1.0, 10.0, 100.0, 1e3, 1e4, 0.1])
